@@ -21,7 +21,7 @@ def run(rep, tier, seed, rng):
             if rng.random() < 0.5: cc["builders"] = sorted(rng.sample(bl, rng.randint(1, len(bl))))
             if rng.random() < 0.5 and al: cc["apps"] = rng.sample(al, rng.randint(1, len(al)))
             sc = {"task": rng.choice(tnames + ["nosuchtask"] if rng.random() < 0.1 else tnames), "multiple": rng.random() < 0.6,
-                  "keep_going": rng.choice([0, 1, 1, 2, 3]), "ninja_rc": rng.choice([0, 0, 0, 1, "kill"])}
+                  "keep_going": rng.choice([0, 1, 1, 2, 3]), "ninja_rc": rng.choice([0, 0, 0, 1, "kill", "missing"])}
             pairs = [(b, a) for b in bl for a in al]
             sc["fail"] = rng.sample(pairs, rng.randint(0, min(3, len(pairs))))
             if sc["fail"] and rng.random() < 0.3: sc["kill_tasks"] = True       # the failing tasks die from a signal instead of exiting 1
